@@ -330,7 +330,7 @@ def run(tier, a=None):
 
     # E. API parity: every catalogue operation the width-1 vector of an element type offers exists and is defined
     #    for every wider vector of that element type
-    pcfgs = [c for c in cfgs if c.name in ("AVX2", "everything")] if tier == "quick" else \
+    pcfgs = [c for c in cfgs if c.name in ("AVX2", "AVX512F", "everything")] if tier == "quick" else \
         [c for c in cfgs if c.has("AVEL_SSE2")]
     pres = common.Result("C19", tier)
     runner.run_families(pres, pcfgs, PARITY_FAMS, None, override="judge_parity", keytag="parity", tier="parity")
